@@ -837,6 +837,19 @@ def frame_select(it, f, names, node):
 
 def val_getitem(it, v, idx, node):
     """indexing a 1-D element-wise value"""
+    axes_ = getattr(v, "axes", None)
+    if axes_ is not None and isinstance(idx, Seq) and idx.kind == "tuple" and len(idx.items) == len(axes_) and all(isinstance(x, SliceV) for x in idx.items) \
+            and not all(x.is_full() for x in idx.items) and all(a_ is not None for a_ in axes_):
+        # an index function read backwards along some axes (a[::-1, ::-1, ::-1]): index i of the result is index n-1-i of the array
+        def rev(x):
+            return x.lower is None and x.upper is None and x.step is not None and is_pyconst(x.step) and pyval(x.step) == -1
+        if all(x.is_full() or rev(x) for x in idx.items) and all(tm.cval(a_.off) in (0, None) or tm.is_const(a_.off) and tm.cval(a_.off) == 0 for a_ in axes_):
+            sub = {a_.sym: mk("sub", mk("sub", a_.n, const(1)), a_.sym) for a_, x in zip(axes_, idx.items) if rev(x)}
+            r = Val(tm.subst(v.term, sub), space=v.space)
+            r.axes = list(axes_)
+            it.record("index", "reversed-axes", [v, idx], {}, node)
+            return r
+        raise Unsupported("slicing of an index function with bounds / steps other than a full reversal", node)
     if isinstance(idx, Seq) and idx.kind == "tuple" and all(
             (isinstance(x, SliceV) and x.is_full()) or (is_pyconst(x) and pyval(x) is None) for x in idx.items):
         r = imgdom.newaxis_index(v, idx)
